@@ -102,6 +102,8 @@ def bounded(tier, seed):
         for mode, a, b in (("copy", src, dst), ("replace", col, vals)):
             if mode == "copy" and src == dst:
                 continue
+            if mode == "replace" and not vals:
+                continue  # an empty --values selects no mode at all (the tool prints its help): not an edit, outside the property
             ev2 += 1
             errs = TO.check_cli(text, mode, cn, a, b)
             if errs and len(viol2) < 3:
